@@ -20,6 +20,7 @@ CLAIM = (
     "reaches _convert_to_surrogates starts in a supplementary plane (straddling ranges are split first)."
     " SKIPS: the loops of the functions in scope have no more `continue`, `break` or in-loop `return` statements than the reference "
     "read on the unchanged tree (baselines/skips.json): a new skip means elements that were handled are no longer handled."
+    " VISIT also requires that each rewriter is called for every term of its kind (no condition besides the kind test)."
 )
 NOTE = (
     "Oracle: the UTF-16 encoding form (Unicode standard, section 3.9) and elementary set arithmetic on the (high, low) grid. "
@@ -161,10 +162,22 @@ def run(ctx) -> None:
                 _skips.check_skips(ctx, _f, "SKIPS", _base)
 
 
+def _eqs(a: str, b: str, op: str = "==") -> str:
+    x, y = sorted((a, b))
+    return f"{x} {op} {y}"
+
+
+def _ctext(test: ast.AST) -> str:
+    """Text of a branch condition; the sides of ``==`` / ``!=`` in a fixed order (``a == b`` and ``b == a`` are one condition)."""
+    if isinstance(test, ast.Compare) and len(test.ops) == 1 and isinstance(test.ops[0], (ast.Eq, ast.NotEq)):
+        return _eqs(norm(test.left), norm(test.comparators[0]), "==" if isinstance(test.ops[0], ast.Eq) else "!=")
+    return norm(test)
+
+
 def _branch_pieces(stmts: List[ast.stmt], conds: Tuple[str, ...], out: List[Tuple[Tuple[str, ...], str, Dict[str, Any]]]) -> None:
     for s in stmts:
         if isinstance(s, ast.If):
-            c = norm(s.test)
+            c = _ctext(s.test)
             _branch_pieces(s.body, conds + (c,), out)
             _branch_pieces(s.orelse, conds + (f"not ({c})",), out)
         elif isinstance(s, ast.Expr) and isinstance(s.value, ast.Call) and dotted_of(s.value.func) == "uniates.append" and s.value.args and isinstance(s.value.args[0], ast.Call):
@@ -198,14 +211,15 @@ def _check_split(ctx, cls) -> None:
         ctx.fail("SPLIT", m, loops[0], f"the surrogates of the range ends are bound as {binds}", construct="surrogates of range ends")
 
     hs, ls, he, le = "high_start", "low_start", "high_end", "low_end"
-    same = "high_start == high_end"
+    same = _eqs("high_start", "high_end")
+    mid1 = _eqs("high_start + 1", "high_end - 1")
     oracle = [
         # (description, required conditions, forbidden conditions, producer, args)
         ("single character -> (high, low)", [], [same], "_produce_char_char", {"first_code": _L(hs), "second_code": _L(ls)}, "single"),
         ("same high surrogate -> {hs}x[ls..le]", [same], [], "_produce_char_char_set", {"code": _L(hs), "range_start": _L(ls), "range_end": _L(le)}, None),
         ("first row -> {hs}x[ls..DFFF]", [f"not ({same})"], [], "_produce_char_char_set", {"code": _L(hs), "range_start": _L(ls), "range_end": _L(None, 0xDFFF)}, None),
-        ("one middle row -> {hs+1}x[DC00..DFFF]", [f"not ({same})", "high_end - high_start > 1", "high_start + 1 == high_end - 1"], [], "_produce_char_char_set", {"code": _L(hs, 1), "range_start": _L(None, 0xDC00), "range_end": _L(None, 0xDFFF)}, None),
-        ("middle rows -> [hs+1..he-1]x[DC00..DFFF]", [f"not ({same})", "high_end - high_start > 1", "not (high_start + 1 == high_end - 1)"], [], "_produce_char_set_char_set",
+        ("one middle row -> {hs+1}x[DC00..DFFF]", [f"not ({same})", "high_end - high_start > 1", mid1], [], "_produce_char_char_set", {"code": _L(hs, 1), "range_start": _L(None, 0xDC00), "range_end": _L(None, 0xDFFF)}, None),
+        ("middle rows -> [hs+1..he-1]x[DC00..DFFF]", [f"not ({same})", "high_end - high_start > 1", f"not ({mid1})"], [], "_produce_char_set_char_set",
          {"first_range_start": _L(hs, 1), "first_range_end": _L(he, -1), "second_range_start": _L(None, 0xDC00), "second_range_end": _L(None, 0xDFFF)}, None),
         ("last row -> {he}x[DC00..le]", [f"not ({same})"], ["high_end - high_start > 1"], "_produce_char_char_set", {"code": _L(he), "range_start": _L(None, 0xDC00), "range_end": _L(le)}, None),
     ]
